@@ -21,10 +21,15 @@ def gen_inputs(rng, spec, n=None, capacity_ok=None):
     ties = spec.get("bus_ties", [])
     p_closed = float(rng.choice([0.4, 0.7, 1.0]))
     breaker = [[bool(rng.random() < p_closed) for _ in range(n)] for _ in ties]
+    swap = len(ties) >= 2 and n >= 2 and rng.random() < 0.5
+    if swap:        # one tie opens while another closes at the same point of the series
+        a, b = (int(x) for x in rng.choice(len(ties), size=2, replace=False))
+        t = int(rng.integers(1, n))
+        breaker[a][t - 1], breaker[a][t], breaker[b][t - 1], breaker[b][t] = True, False, False, True
     inp = {"n": n, "dt": [float(rng.choice([1.0, 10.0, 60.0, 600.0])) for _ in range(n)], "breaker": breaker, "comp": {}}
     # on/off series are handed over as booleans or as 0/1 numbers (the repository's own tests do both)
     inp["dtype"] = {"status": str(rng.choice(["bool", "int", "float"], p=[0.6, 0.2, 0.2])),
-                    "breaker": str(rng.choice(["bool", "int", "float"], p=[0.6, 0.2, 0.2]))}
+                    "breaker": str(rng.choice(["bool", "int", "float"], p=[0.2, 0.4, 0.4] if swap else [0.6, 0.2, 0.2]))}
     if capacity_ok is None:
         capacity_ok = rng.random() < 0.9
     total_src = sum(c["rated"] for c in spec["electric"] if c["kind"] in SOURCE_KINDS)
